@@ -700,6 +700,119 @@ func emitRaw(stream string, rc *rcfg, ing rtgen.Ingress, raw []byte, bfd bool) {
 	emit(stream, rc, &scen{d: d, ing: ing, kind: "raw"}, raw)
 }
 
+// bfdSeries: ONE real bfdSend sender (as a BFD session owns it) emits a series of packets
+// over ~2.3 s, so that at least two wall-clock second boundaries are crossed between
+// consecutive sends; it runs in its own goroutine on its own dataplane while the other
+// streams are generated.
+type bfdShot struct {
+	t0, t1 int64 // time.Now().Unix() before / after the Send
+	raw    []byte
+	err    error
+}
+
+type bfdSeriesT struct {
+	rc     *rcfg
+	ifc    rtgen.Iface
+	remote addr.IA
+	shots  []bfdShot
+	done   chan struct{}
+	err    error
+}
+
+const bfdShotsPerSeries = 24
+
+func startBFDSeries(r *vgen.Rand, rc *rcfg, k int) *bfdSeriesT {
+	s := &bfdSeriesT{rc: rc, done: make(chan struct{})}
+	var own []rtgen.Iface
+	for _, f := range rc.cfg.Ifaces {
+		if f.Sibling == 0 && f.Nbr != 0 {
+			own = append(own, f)
+		}
+	}
+	s.ifc = own[k%len(own)]
+	s.remote = s.ifc.Nbr
+	jitter := make([]time.Duration, bfdShotsPerSeries)
+	for i := range jitter {
+		jitter[i] = time.Duration(r.Range(-30, 30)) * time.Millisecond
+	}
+	rt, err := rc.cfg.Build() // a dataplane of its own: nothing else touches its links
+	if err != nil {
+		s.err = err
+		close(s.done)
+		return s
+	}
+	go func() {
+		defer close(s.done)
+		snd, err := rt.DP.VerifNewBFDSender(s.ifc.ID, s.remote, addr.HostIP(rc.cfg.LocalHost),
+			addr.HostIP(netip.AddrFrom4([4]byte{192, 0, 2, 1})))
+		if err != nil {
+			s.err = err
+			return
+		}
+		msg := &layers.BFD{Version: 1, State: layers.BFDStateUp, DetectMultiplier: 3, MyDiscriminator: 7,
+			YourDiscriminator: 9, DesiredMinTxInterval: 100000, RequiredMinRxInterval: 100000}
+		start := time.Now().Add(time.Duration(k) * 230 * time.Millisecond)
+		for i := 0; i < bfdShotsPerSeries; i++ {
+			time.Sleep(time.Until(start.Add(time.Duration(i)*100*time.Millisecond + jitter[i])))
+			var sh bfdShot
+			sh.t0 = time.Now().Unix()
+			sh.raw, sh.err = snd.Send(msg)
+			sh.t1 = time.Now().Unix()
+			s.shots = append(s.shots, sh)
+		}
+	}()
+	return s
+}
+
+// emitBFDSeries registers every packet of the series: the timestamp must be (second of the
+// Send) - 10 and the first hop's MAC must be the AS key's MAC for THAT timestamp.
+func emitBFDSeries(s *bfdSeriesT, k int) {
+	<-s.done
+	rc := s.rc
+	boundaries := 0
+	var last uint32
+	for i := 0; i < bfdShotsPerSeries; i++ {
+		if !run.Want() {
+			run.Skip()
+			continue
+		}
+		if s.err != nil || i >= len(s.shots) || s.shots[i].err != nil {
+			run.Tally("bfd-series-send-error")
+			run.Skip()
+			continue
+		}
+		sh := s.shots[i]
+		rec, x, err := rtgen2.Parse(sh.raw)
+		if err != nil || x.PathType != rtgen2.PathTypeOHP {
+			id := run.Add("bfd-series", vgen.App("RouterOHP.CConst", "999", "0"), fmt.Sprintf("bfdser-unparsable-%d-%d", k, i), false,
+				map[string]any{"raw": hex.EncodeToString(sh.raw)})
+			run.Violate(id, "bfdSend produced a packet that is not a one-hop packet", nil)
+			continue
+		}
+		ts := rec.Infos[0].Timestamp
+		if i > 0 && ts != last {
+			boundaries++
+			run.Tally("bfd-series:first-packet-of-a-new-second")
+		}
+		last = ts
+		// the second the sender read lies between the two samples; the model is evaluated at
+		// the sample the packet's timestamp corresponds to (if any: otherwise at t0, and the
+		// comparison fails)
+		now := sh.t0
+		if int64(ts)+10 >= sh.t0 && int64(ts)+10 <= sh.t1 {
+			now = int64(ts) + 10
+		}
+		macs := vgen.List([]string{rtgen2.MacEntry(rc.cfg.Key, 0, uint32(now-10), router.VerifHopFieldDefaultExpTime, 0, s.ifc.ID)})
+		term := vgen.App("RouterOHP.CBfd", rc.name, vgen.N(uint64(s.ifc.ID)), vgen.N(uint64(s.remote)), vgen.N(uint64(now)), macs,
+			rtgen2.RecTerm(rec, rtgen.RawL4(rtgen2.L4BFD, nil)))
+		run.Tally("bfd-series-packet")
+		run.Add("bfd-series", term, fmt.Sprintf("%s|bfdser|%d|%d|%d", rc.name, k, i, ts), true,
+			map[string]any{"cfg": rc.name, "ifid": s.ifc.ID, "series": k, "shot": i, "timestamp": ts,
+				"raw": hex.EncodeToString(sh.raw)})
+	}
+	run.Tally(fmt.Sprintf("bfd-series:second-boundaries-crossed=%d", boundaries))
+}
+
 func consts() {
 	vals := []uint64{onehop.PathLen, uint64(onehop.PathType), uint64(scion.PathType),
 		router.VerifHopFieldDefaultExpTime, 8, 12, slayers.CmnHdrLen}
@@ -731,7 +844,8 @@ func main() {
 		"flag, pre-filled second hop, BFD upper layer) and valid packets whose HdrLen announces 1-3 lines more than the " +
 		"one-hop path occupies; (3) chains: router A sends out, router B completes the real output, " +
 		"the real onehop.Path.Reverse of the completed packet is sent back through real B and real A; (4) packets built by " +
-		"the real bfdSend. non-trivial = ConsDir set and no BFD upper layer (the packet reached the neighbour / MAC decisions), " +
+		"the real bfdSend (one per fresh sender), and 4 senders that each emit 24 packets over ~2.3 s (every 100 +- 30 ms, " +
+		"at least two second boundaries crossed): every packet's timestamp and first-hop MAC checked. non-trivial = ConsDir set and no BFD upper layer (the packet reached the neighbour / MAC decisions), " +
 		"every chain step, every bfdSend packet"
 	rng := vgen.NewRand(run.Seed)
 	nowSec = time.Now().Unix()
@@ -769,6 +883,12 @@ func main() {
 	var all []*rcfg
 	for _, p := range pairs {
 		all = append(all, p.a, p.b)
+	}
+
+	// four real BFD senders emit in the background while the other streams are generated
+	var series []*bfdSeriesT
+	for k := 0; k < 4; k++ {
+		series = append(series, startBFDSeries(rng.Fork(uint64(500000+k)), all[k%len(all)], k))
 	}
 
 	table(rng.Fork(1), pairs[0].a)
@@ -833,6 +953,9 @@ func main() {
 	nBfd := run.Count(16, 400)
 	for i := 0; i < nBfd; i++ {
 		bfdCase(rng.Fork(uint64(400000+i)), all[i%len(all)], i)
+	}
+	for k, sr := range series {
+		emitBFDSeries(sr, k)
 	}
 	run.Prelude = strings.Join(prelude, "\n")
 	run.Finish()
